@@ -41,6 +41,8 @@ class Gen:
         self.sigs = {}      # fname -> (nparams, nresults)
         self.features = set()
         self.extra_defer_kinds = ()
+        self.rawdecls = []
+        self.have_iters = False
         self.split_at = None      # index of the first function that lives in package lib (None: one package)
         self.cur_fi = None
 
@@ -143,21 +145,21 @@ class Gen:
     def weights(self):
         base = {"decl": 5, "assign": 6, "print": 5, "if": 4, "for": 3, "rangeint": 2, "rangearr": 2, "switch": 2, "call": 4,
                 "closure": 3, "defer": 1, "panic": 0.4, "return": 0.6, "break": 1, "continue": 1, "swap": 2, "ptr": 2, "struct": 2,
-                "method": 2, "iface": 2, "fault": 0, "recoverblock": 0.5, "goexit": 0, "gowait": 0.2, "arrset": 2}
+                "method": 2, "iface": 2, "generic": 2, "rangefunc": 2, "fault": 0, "recoverblock": 0.5, "goexit": 0, "gowait": 0.2, "arrset": 2}
         if self.profile == "defer":
             base.update({"defer": 9, "panic": 2.5, "return": 2, "recoverblock": 4, "fault": 1.5, "goexit": 0.6, "gowait": 1.0,
-                         "closure": 1, "switch": 0.5, "rangearr": 0.5, "struct": 0.5, "method": 0.5, "iface": 0.3})
+                         "closure": 1, "switch": 0.5, "rangearr": 0.5, "struct": 0.5, "method": 0.5, "iface": 0.3, "generic": 0.4, "rangefunc": 3})
         if self.profile == "faults":
             base.update({"fault": 6, "recoverblock": 5, "defer": 3, "panic": 1, "ptr": 3})
         if self.in_lib(self.cur_fi):
-            base.update({"struct": 0, "method": 0, "iface": 0})
+            base.update({"struct": 0, "method": 0, "iface": 0, "generic": 0, "rangefunc": 0})
         return base
 
     def stmt(self, sc, fi, depth, ctx):
         r = self.r
         w = self.weights()
         if depth <= 0:
-            for k in ("if", "for", "rangeint", "rangearr", "switch", "closure", "recoverblock", "gowait"):
+            for k in ("if", "for", "rangeint", "rangearr", "rangefunc", "switch", "closure", "recoverblock", "gowait"):
                 w[k] = 0
         if not ctx.get("loop"):
             w["break"] = w["continue"] = 0
@@ -315,6 +317,10 @@ class Gen:
             return self.method_stmts(sc)
         if k == "iface":
             return self.iface_stmts(sc)
+        if k == "generic":
+            return self.generic_stmts(sc)
+        if k == "rangefunc":
+            return self.rangefunc_stmts(sc, fi, depth, ctx)
         if k == "defer":
             return self.defer_stmt(sc, fi, ctx)
         if k == "panic":
@@ -452,6 +458,141 @@ class Gen:
              "body": [("expr", ("call", ("fn", P + ".Bump"), [("addr", ("field", ("deref", V("s")), "in")), V("d")]))]},
         ]
 
+    # ---- generics: fixed declarations per case (raw Go + machine functions), random uses
+    def ensure_generics(self):
+        if self.rawdecls:
+            return
+        self.ensure_types()
+        pf = self.pf
+        P = pf + "P"
+        self.rawdecls += [
+            "func %sgid[T any](x T) T { return x }" % pf,
+            "func %sgapply[T any](x T, f func(T) T, n int) T {\n\tfor i := 0; i < n; i++ {\n\t\tx = f(x)\n\t}\n\treturn x\n}" % pf,
+            "func %sgpair[A any, B any](a A, b B) (B, A) { return b, a }" % pf,
+            "type %sBox[T any] struct {\n\tv T\n\tn int\n}" % pf,
+            "func (b *%sBox[T]) Set(x T) { b.v = x; b.n++ }" % pf,
+            "func (b %sBox[T]) Get() T { return b.v }" % pf,
+            "func %sgfirst[T any](xs [3]T, pick func(T) bool) (r T, ok bool) {\n\tfor _, x := range xs {\n\t\tif pick(x) {\n\t\t\treturn x, true\n\t\t}\n\t}\n\treturn r, false\n}" % pf,
+        ]
+        # the machine is dynamically typed: one function serves every instantiation
+        self.funcs += [
+            {"name": pf + "gid", "synthetic": True, "params": [("x", "int")], "results": [("r", "int")],
+             "body": [("assign", [V("r")], [V("x")])]},
+            {"name": pf + "gapply", "synthetic": True, "params": [("x", "int"), ("f", ("func", ["int"], ["int"])), ("n", "int")],
+             "results": [("r", "int")],
+             "body": [("for", None, ("decl", "i", "int", I(0)), ("bin", "<", V("i"), V("n")), ("assign", [V("i")], [("bin", "+", V("i"), I(1))]),
+                       [("assign", [V("x")], [("call", ("clo", V("f")), [V("x")])])]),
+                      ("assign", [V("r")], [V("x")])]},
+            {"name": pf + "gpair", "synthetic": True, "params": [("a", "int"), ("b", "int")], "results": [("r1", "int"), ("r2", "int")],
+             "body": [("assign", [V("r1"), V("r2")], [V("b"), V("a")])]},
+            {"name": pf + "Box.Set", "synthetic": True, "params": [("b", "int"), ("x", "int")], "results": [],
+             "body": [("assign", [("field", ("deref", V("b")), "v")], [V("x")]),
+                      ("assign", [("field", ("deref", V("b")), "n")], [("bin", "+", ("field", ("deref", V("b")), "n"), I(1))])]},
+            {"name": pf + "Box.Get", "synthetic": True, "params": [("b", "int")], "results": [("r", "int")],
+             "body": [("assign", [V("r")], [("field", V("b"), "v")])]},
+        ]
+        self.structs[pf + "Box[int]"] = [("v", "int"), ("n", "int")]
+        self.structs[pf + "Box[%s]" % P] = [("v", ("struct", P)), ("n", "int")]
+
+    def generic_stmts(self, sc):
+        self.ensure_generics()
+        r = self.r
+        pf = self.pf
+        P = pf + "P"
+        self.features.add("generics")
+        c = r.random()
+        if c < 0.2:
+            x = self.var()
+            e = self.int_expr(sc, 1)
+            sc[x] = "int"
+            return [("decl", x, "int", ("call", ("fn", pf + "gid"), [e])), ("print", [("str", "g"), V(x)])]
+        if c < 0.45:
+            x = self.var()
+            pv = self.var("x")
+            k = r.randint(1, 4)
+            lit = {"name": "", "params": [(pv, "int")], "results": [("r", "int")],
+                   "body": [("assign", [V("r")], [("bin", "%", ("bin", "+", ("bin", "*", V(pv), I(k)), I(1)), I(97))])]}
+            e = self.int_expr(sc, 1)
+            sc[x] = "int"
+            return [("decl", x, "int", ("call", ("fn", pf + "gapply"), [e, ("funclit", lit), I(r.randint(0, 3))])), ("print", [("str", "ga"), V(x)])]
+        if c < 0.6:
+            a, b = self.var(), self.var("b")
+            e = self.int_expr(sc, 1)
+            be = self.bool_expr(sc, 1)
+            sc[a] = "int"
+            sc[b] = "bool"
+            return [("decl", a, "int", I(0)), ("decl", b, "bool", ("bool", False)),
+                    ("calls", [b, a], ("call", ("fn", pf + "gpair"), [e, be])), ("print", [("str", "gp"), V(a), V(b)])]
+        if c < 0.8:
+            bx = self.var("bx")
+            x = self.var()
+            e1, e2 = self.int_expr(sc, 1), self.int_expr(sc, 1)
+            T = ("struct", pf + "Box[int]")
+            sc[x] = "int"
+            return [("decl", bx, T, ("mkstruct", pf + "Box[int]", [("v", e1), ("n", I(0))])),
+                    ("expr", ("call", ("method", ("addr", V(bx)), pf + "Box.Set", "Set", V(bx)), [e2])),
+                    ("expr", ("call", ("method", ("addr", V(bx)), pf + "Box.Set", "Set", V(bx)), [("bin", "+", e2, I(1))])),
+                    ("decl", x, "int", ("call", ("method", V(bx), pf + "Box.Get", "Get", V(bx)), [])),
+                    ("print", [("str", "gb"), V(x), ("field", V(bx), "n")])]
+        bx = self.var("bx")
+        pv = self.var("s")
+        e1, e2 = self.int_expr(sc, 1), self.int_expr(sc, 1)
+        T = ("struct", pf + "Box[%s]" % P)
+        x = self.var()
+        sc[x] = "int"
+        return [("decl", bx, T, ("mkstruct", pf + "Box[%s]" % P, [("v", ("mkstruct", P, [("a", e1), ("b", I(2))])), ("n", I(0))])),
+                ("expr", ("call", ("method", ("addr", V(bx)), pf + "Box.Set", "Set", V(bx)), [("mkstruct", P, [("a", e2), ("b", I(3))])])),
+                ("decl", pv, ("struct", P), ("call", ("method", V(bx), pf + "Box.Get", "Get", V(bx)), [])),
+                ("decl", x, "int", ("bin", "+", ("field", V(pv), "a"), ("field", V(pv), "b"))),
+                ("print", [("str", "gs"), V(x), ("field", V(bx), "n")])]
+
+    # ---- range-over-func: fixed iterator functions per case, random loop bodies
+    def ensure_iters(self):
+        if self.have_iters:
+            return
+        self.have_iters = True
+        pf = self.pf
+        YT = ("func", ["int"], ["bool"])
+        YT2 = ("func", ["int", "int"], ["bool"])
+        inc = ("assign", [V("i")], [("bin", "+", V("i"), I(1))])
+        stop = lambda *args: ("if", ("not", ("call", ("clo", V("yield")), list(args))), [("return", [])], [])
+        note = lambda tag: {"name": "", "params": [], "results": [], "body": [("print", [("str", tag), V("tag")])]}
+        # upto(n, tag): yields 0..n-1; its own deferred call and its tail show when the iterator function itself ends
+        self.funcs.append({"name": pf + "upto", "params": [("n", "int"), ("tag", "int")], "results": [("r", ("func", [YT], []))], "body": [
+            ("assign", [V("r")], [("funclit", {"name": "", "params": [("yield", YT)], "results": [], "body": [
+                ("defer", ("call", ("clo", ("funclit", note("itd"))), [])),
+                ("for", None, ("decl", "i", "int", I(0)), ("bin", "<", V("i"), V("n")), inc, [stop(V("i"))]),
+                ("print", [("str", "ite"), V("tag")])]})])]})
+        # pairs(n, tag): two loop variables, two yields per round
+        self.funcs.append({"name": pf + "pairs", "params": [("n", "int"), ("tag", "int")], "results": [("r", ("func", [YT2], []))], "body": [
+            ("assign", [V("r")], [("funclit", {"name": "", "params": [("yield", YT2)], "results": [], "body": [
+                ("for", None, ("decl", "i", "int", I(0)), ("bin", "<", V("i"), V("n")), inc,
+                 [stop(V("i"), ("bin", "*", V("i"), V("i"))), stop(("bin", "+", V("i"), I(10)), V("tag"))]),
+                ("print", [("str", "pe"), V("tag")])]})])]})
+
+    def rangefunc_stmts(self, sc, fi, depth, ctx):
+        self.ensure_iters()
+        r = self.r
+        pf = self.pf
+        self.features.add("range-over-func")
+        lab = self.label() if r.random() < 0.35 else None
+        sc2 = dict(sc)
+        if r.random() < 0.65:
+            xs = [self.var("k")]
+            seq = ("call", ("fn", pf + "upto"), [I(r.randint(0, 3)) if r.random() < 0.7 else self.int_expr(sc, 1), I(r.randint(1, 9))])
+        else:
+            xs = [self.var("k"), self.var("w")]
+            seq = ("call", ("fn", pf + "pairs"), [I(r.randint(0, 2)), I(r.randint(1, 9))])
+        for x in xs:
+            sc2[x] = "int"
+        ctx2 = dict(ctx, loop=True, labels=ctx.get("labels", []) + ([lab] if lab else []))
+        body = self.stmts(sc2, fi, depth - 1, 3, ctx2)
+        if r.random() < 0.5:
+            body.insert(0, ("print", [("str", "rf")] + [V(x) for x in xs]))
+        if lab and not uses_label(body, lab):
+            lab = None
+        return [("rangefunc", lab, xs, seq, body)]
+
     def struct_stmts(self, sc):
         self.ensure_types()
         r = self.r
@@ -575,7 +716,7 @@ class Gen:
             f["body"] = body
             self.funcs.append(f)
         return {"funcs": self.funcs, "structs": self.structs, "embedded": self.embedded, "ifaces": self.ifaces,
-                "methods": self.methods, "entry": self.fname(0), "features": sorted(self.features)}
+                "methods": self.methods, "entry": self.fname(0), "features": sorted(self.features), "rawdecls": self.rawdecls}
 
 
 def gen_case(seed, idx, profile, extra_defer_kinds=(), split=False):
